@@ -1,11 +1,11 @@
-SPECIFICATION TraceSpec
+SPECIFICATION Spec
 CONSTANTS
-  N = 6
+  N = 5
   Refs = {"a", "b"}
-  MaxDepth = 0
-  MaxPacks = 6
+  MaxDepth = 6
+  MaxPacks = 2
   WithCopies = TRUE
-  WithIdx = TRUE
+  WithIdx = FALSE
   MidxChecksPack = TRUE
   CgChecksStore = TRUE
   CgWriterCloses = TRUE
@@ -15,8 +15,11 @@ CONSTANTS
   ProvidersAgree = TRUE
   DeleteDropsPacked = TRUE
   BitmapHonoursShallow = TRUE
-  CgOctopusOk = TRUE
-  MaxParents = 6
+  CgOctopusOk = FALSE
+  MaxParents = 3
   CgHonoursShallow = TRUE
-  Focus = "all"
+  Focus = "octo"
+INVARIANT TypeOK
+INVARIANT Transparent
+VIEW view
 CHECK_DEADLOCK FALSE
